@@ -7,9 +7,10 @@ pub fn describe_lexerdef(ld: &LRNonStreamingLexerDef<LT>) -> String {
     let mut s = String::new();
     for r in ld.iter_rules() {
         s.push_str(&format!(
-            "rule id={:?} name={:?} re={:?} states={:?} target={:?}\n",
+            "rule id={:?} name={:?} name_span={:?} re={:?} states={:?} target={:?}\n",
             r.tok_id(),
             r.name(),
+            r.name_span(),
             r.re_str(),
             r.start_states(),
             r.target_state()
